@@ -12,7 +12,7 @@ import (
 )
 
 func init() {
-	props["C08"] = &propInfo{Level: "other", Explanation: "Decides structural necessary conditions of 'deterministic bytes in the pinned wire format': (R08.1) the 21 type codes, the 4 table entry sizes and MaxSize have the pinned values (evaluated by go/constant, reached through the public aliases too); (R08.2) the big-table predicate is exactly 'some field has tag > 255 or offset > 65535' over ALL fields for messages and 'more than 255 elements or last offset > 65535' for lists - extracted from the SSA comparisons and the loop that indexes the table; (R08.3) the trailer is written table, data size, table size + type, and only big-endian byte order objects are used in encode/decode/format; (R08.4) every byte of every region obtained from buffer.Grow(n) in internal/encode is written before the encoder returns (Grow does not zero reused capacity, so an unwritten byte makes the output depend on buffer history), and no write into a grown region happens after a later Grow of the same buffer (the region may have been reallocated); (R08.5) no function of encode/writer reads ambient state (time, rand, map iteration). Not decided: byte-for-byte agreement with an independent implementation on arbitrary trees.",
+	props["C08"] = &propInfo{Level: "other", Explanation: "Decides structural necessary conditions of 'deterministic bytes in the pinned wire format': (R08.1) the 21 type codes, the 4 table entry sizes and MaxSize have the pinned values (evaluated by go/constant, reached through the public aliases too); (R08.2) the big-table predicate is exactly 'some field has tag > 255 or offset > 65535' over ALL fields for messages and 'more than 255 elements or last offset > 65535' for lists - extracted from the SSA comparisons and the loop that indexes the table; (R08.3) the trailer is written table, data size, table size + type, and only big-endian byte order objects are used in encode/decode/format; (R08.4) every byte of every region obtained from buffer.Grow(n) in internal/encode is written before the encoder returns (Grow does not zero reused capacity, so an unwritten byte makes the output depend on buffer history), and no write into a grown region happens after a later Grow of the same buffer (the region may have been reallocated); (R08.5) kind binding: each scalar encoder emits exactly its own pinned type code, and every typed writer method reaches exactly the encoder of its own kind (the library's decoders accept neighbouring codes, so a swapped encoder is invisible to round-trip tests). Not decided: byte-for-byte agreement with an independent implementation on arbitrary trees.",
 		Trusted: []string{"pinned constant table in rules_c08.go (from format.md / the pinned commit)", "buffer.Grow(n) returns a slice of length n (read from the dependency source)"}}
 
 	register(&Rule{ID: "R08.1", Props: []string{"C08"}, Floor: 26,
